@@ -14,8 +14,8 @@ CHAIN_VARIANTS = ["genuine", "quote-link", "quote-custom-data", "attestation-lin
 
 
 class SgxGen:
-    def __init__(self, rng):
-        self.h = S.Hierarchy(rng)
+    def __init__(self, rng, hierarchy=None):
+        self.h = hierarchy or S.Hierarchy(rng)
         self.other = S.Hierarchy(rng)                 # unrelated hierarchy ("wrong root")
         self.stranger = S.P256Key.from_rng(rng)
         self.enclave = S.Enclave(rng, self.h, auth_len=32, chain_len=3)
@@ -46,10 +46,14 @@ class SgxGen:
         self.root_not_selfsigned = S.make_cert("Verif SGX Root CA", h.root_key,
                                                "Verif SGX Root CA", self.stranger, 1, True)
 
-    def message(self, header=L.POWHSM_HEADER, lenmod=0, platform=b"sgx", keys_hash=None):
+    def message(self, header=L.POWHSM_HEADER, lenmod=0, platform=b"sgx", keys_hash=None, fill=None,
+                timestamp=None):
         m = L.powhsm_message(header, platform, self.ud, keys_hash, self.best_block, self.last_tx,
-                             self.timestamp)
-        return m[:lenmod] if lenmod < 0 else m + self.filler[:lenmod]
+                             self.timestamp if timestamp is None else timestamp)
+        if lenmod < 0:
+            return m[:lenmod]
+        fill = fill or b""
+        return m + self.filler[:lenmod - len(fill)] + fill[:lenmod] if lenmod else m
 
     def certificate(self, chain, targets, message):
         """targets: 'quote' | 'none' | 'attestation-only' | 'no-quote-element'."""
